@@ -166,6 +166,7 @@ def _link(prop, theorems, mode, scope, extra=()):
 PROPS["C01"] = _link("C01", ["Toxi.Link.C01_stage_conserves", "Toxi.Link.C01_inactive_conserves", "Toxi.Link.C01_new_link",
                              "Toxi.Toxic.step_conserves", "Toxi.Toxic.slicerSend_ok", "Toxi.Toxic.bwLoop_ok", "Toxi.Stream.C18_fifo",
                              "Toxi.Link.C01_move_conserves", "Toxi.Link.C01_settle_conserves", "Toxi.Link.C01_prefix", "Toxi.Link.LInv_new",
+                             "Toxi.Link.C01_quiescent_complete", "Toxi.Link.idle_can_receive",
                              "Toxi.Link.sinkMove_inv", "Toxi.Link.stageMove_inv", "Toxi.Link.bufferMove_inv", "Toxi.Link.sourceMove_inv",
                              "Toxi.Toxic.input_ok", "Toxi.Toxic.taken_ok", "Toxi.Toxic.timer_ok"],
                      "preserving",
@@ -178,7 +179,7 @@ PROPS["C04"] = _link("C04", ["Toxi.Link.C04_new_link_aligned", "Toxi.Link.C04_ad
                              "Toxi.Link.C04_remove_chain", "Toxi.Link.C04_frame_links", "Toxi.Link.C04_update_restarts_one"],
                      "",
                      "toxic_collection.go (chain, Index renumbering, findToxicByName), link.go stubs vs chain alignment")
-PROPS["C01"]["lean_modules"] = PROPS["C01"]["lean_modules"] + ["Toxi.Proofs.Lemmas.Pipeline"]
+PROPS["C01"]["lean_modules"] = PROPS["C01"]["lean_modules"] + ["Toxi.Proofs.Lemmas.Pipeline", "Toxi.Proofs.Lemmas.Quiescent"]
 PROPS["C14"]["engines"] = PROPS["C14"]["engines"] + [{"engine": "e3", "gotest": True, "args": ["-props", "C14"], "tag": "C14link"}]
 PROPS["C14"]["model_scope"] += "; toxic_collection.go UpdateToxicJson -> chainUpdateToxic -> link.UpdateToxic (restart with a fresh draw) via the link model (E3)"
 PROPS["C11"]["engines"] = PROPS["C11"]["engines"] + [{"engine": "e3", "gotest": True, "args": ["-props", "C11", "-mode", "all"], "tag": "C11link"}]
